@@ -14,7 +14,7 @@ PY
 for f in tla/*.tla tla/mech/*.tla; do
   [ -f "$f" ] || continue
   d=$(dirname "$f")
-  (cd "$d" && java -cp /opt/veriftools/tla/tla2tools.jar:/opt/veriftools/tla/CommunityModules-deps.jar -DTLA-Library=/verif/tla:/verif/tla/mech tla2sany.SANY "$(basename "$f")" > /tmp/sany.$$ 2>&1) || { cat /tmp/sany.$$; rm -f /tmp/sany.$$; echo "SANY failed on $f"; exit 1; }
+  (cd "$d" && java -cp /opt/veriftools/tla/tla2tools.jar:/opt/veriftools/tla/CommunityModules-deps.jar -DTLA-Library=/verif/tla:/verif/tla/mech:/opt/veriftools/tlapm/lib/tlapm/stdlib tla2sany.SANY "$(basename "$f")" > /tmp/sany.$$ 2>&1) || { cat /tmp/sany.$$; rm -f /tmp/sany.$$; echo "SANY failed on $f"; exit 1; }
   if grep -q -E "^\*\*\* Errors|Fatal errors|Could not find module" /tmp/sany.$$; then cat /tmp/sany.$$; rm -f /tmp/sany.$$; echo "SANY failed on $f"; exit 1; fi
   rm -f /tmp/sany.$$
 done
